@@ -4,7 +4,7 @@ LEVEL = "proof"
 # the regenerated tables and constants (audited together so that a changed table shows up as a failed obligation)
 LEAN_MODULES = ["CifModel.Props.C01", "CifModel.Lemmas.CharsLink", "CifModel.Lemmas.LexerMask"]
 REQUIRED = [
-    "CifModel.C01_lex_value", "CifModel.C01_lex_value_loop", "CifModel.C01_lex_value_after_ws", "CifModel.C01_lex_key",
+    "CifModel.C01_lex_value", "CifModel.C01_lex_value_loop", "CifModel.C01_lex_value_after_ws", "CifModel.C01_nextValue", "CifModel.C01_lex_key",
     "CifModel.C01_lex_name", "CifModel.C01_lex_bracket", "CifModel.C01_lex_keyword",
     "CifModel.C01_lex_sep", "CifModel.C08_ws_lengthening_lexical", "CifModel.C01_lex_total",
     "CifModel.C01_line_numbers", "CifModel.C01_overlength_invariant", "CifModel.C01_overlength_iff",
